@@ -304,9 +304,19 @@ impl<'a> OpGen<'a> {
         let d = self.dart(rng);
         let kinds = mask_kinds(s.kinds);
         let cell = |okind: u8, d: u32| if rng_chance_fixed(d, 7) { d } else { s.cell_id(okind_policy(okind), d) };
-        let c = rng.below(11);
+        let c = rng.below(15);
         match c {
             10 => Op::Audit { kinds: s.kinds, data: rng.chance(0.5) },
+            11 | 12 if !kinds.is_empty() => {
+                let k = *rng.pick(&kinds);
+                *uniq += 1;
+                let v = if kind_is_weight(k) { 1u64 << (*uniq % 38) } else if kind_is_tag(k) { *uniq % 3 } else { rand_attr(rng, k, &mut 0) };
+                if rng.chance(0.7) { Op::WriteACell { k: k as u8, d, v } } else { Op::ReadACell { k: k as u8, d } }
+            }
+            11..=14 => {
+                *uniq += 1;
+                if rng.chance(0.6) { Op::WriteVCell { d, v: b3([*uniq as f64 * 0.5 - 40.0, *uniq as f64 * 0.125 + 3.0, if s.dim == 3 { 1.5 } else { 0.0 }]) } } else { Op::ReadVCell { d } }
+            }
             0 => Op::ReadV { id: cell(0, d) },
             1 => {
                 *uniq += 1;
